@@ -88,15 +88,24 @@ pub fn run(_sub: &str, opts: &Opts, w: &mut dyn Write) {
     for _ in 0..cases {
       idx += 1;
       let n = 1 + rng.below(12) as usize;
-      let hist: Vec<(u16, u8)> = (0..n).map(|_| gen_write(&mut rng)).collect();
+      // one write in six is a 16-bit write through memory_write_word (value = v * 257 + 1, low byte first), the rest byte writes
+      let hist: Vec<(u16, u8, bool)> = (0..n).map(|_| { let (a, v) = gen_write(&mut rng); let word = rng.chance(1, 6);
+        let a = if word && rng.chance(1, 3) { *rng.pick(&[0xdfffu16, 0xcfff, 0x9fff, 0xbfff, 0xfe9f, 0xfffe, 0xffff, 0x7fff, 0xfdff, 0xff7f]) } else { a }; (a, v, word) }).collect();
       if idx % nshards != shard { continue; }
       let mut mem = mk_mem(t, r, m, &[]);
       let p = &mut mem as *mut MemoryAreas;
-      for (a, v) in hist.iter() { memory_write_byte(p, *a, *v); }
+      for (a, v, word) in hist.iter() {
+        if *word { crate::mem::memory_write_word(p, *a, ((*v as u32 * 257 + 1) & 0xffff) as u16); } else { memory_write_byte(p, *a, *v); }
+      }
       let (ds, io) = image_digests(p);
       let (fd, rd) = fetch_digests(p);
       let fe = fetch_echo_digest(p);
-      let hs: Vec<String> = hist.iter().map(|(a, v)| format!("{}:{}", a, v)).collect();
+      // a word write appears in the line as its two byte writes (the spec of a 16-bit store)
+      let mut hs: Vec<String> = Vec::new();
+      for (a, v, word) in hist.iter() {
+        if *word { let x = ((*v as u32 * 257 + 1) & 0xffff) as u16; hs.push(format!("{}:{}", a, x & 0xff)); hs.push(format!("{}:{}", a.wrapping_add(1), x >> 8)); }
+        else { hs.push(format!("{}:{}", a, v)); }
+      }
       let dss: Vec<String> = ds.iter().map(|d| d.to_string()).collect();
       writeln!(w, "c10 type={} rom={} ram={} banks={} ramb={} hist={} | d={} io={} fd={} rd={} fe={}", t, r, m, rom_bank_count(r), header(t, r, m).get_ram_size_bytes(), hs.join(";"), dss.join(","), hex(&io), fd, rd, fe).unwrap();
     }
